@@ -181,7 +181,8 @@ func main() {
 		return
 	}
 
-	eng := &Engine{prog: prog, db: db, prop: *prop, cfg: cfg, obls: map[string]*Obligation{}}
+	eng := &Engine{prog: prog, db: db, prop: *prop, cfg: cfg, obls: map[string]*Obligation{}, immutableHeap: map[string]bool{}}
+	eng.checkImmutables(fnIndex)
 	type fnReport struct {
 		Func        string `json:"func"`
 		Obligations int    `json:"obligations"`
